@@ -1,19 +1,21 @@
 (* C19, source level: serialCharTime AS TRANSLATED FROM THE GO SOURCE ON THIS
    RUN (Gen/SrcPure.v) is the model's character time (eleven bit times,
    truncated to the nanosecond) for every rate that fits Go's int64; rate 0
-   is a division by zero. Only statements, closed by [exact]. *)
+   is a division by zero. Only statements, closed by [exact].
+   [call_with src_pure no_fns] runs a function of the translated program with no
+   external functions under it. *)
 From Coq Require Import List NArith ZArith String.
 Import ListNotations.
 From Modbus Require Import Base.Bytes Model.GoLite Gen.SrcPure Model.Timing.
-From Modbus Require Import Proofs.SrcCrcP Proofs.SrcMiscP.
+From Modbus Require Import Proofs.GoLiteLinkP Proofs.SrcCrcP Proofs.SrcMiscP.
 Open Scope string_scope.
 Open Scope N_scope.
 
 Theorem c19s_char_time : forall fuel rate, 0 < rate -> rate < 2 ^ 63 ->
-  call src_pure fuel "serialCharTime" [VN rate] = GoLite.Ok [VN (Z.to_N (char_time (Z.of_N rate)))].
-Proof. exact src_serialCharTime_ok. Qed.
+  call_with src_pure no_fns fuel "serialCharTime" [VN rate] = GoLite.Ok [VN (Z.to_N (char_time (Z.of_N rate)))].
+Proof. exact (src_serialCharTime_ok no_fns). Qed.
 Print Assumptions c19s_char_time.
 
 Example c19s_check_9600 :
-  call src_pure 0 "serialCharTime" [VN 9600] = GoLite.Ok [VN 1145833].
+  call_with src_pure no_fns 0 "serialCharTime" [VN 9600] = GoLite.Ok [VN 1145833].
 Proof. vm_compute. reflexivity. Qed.
